@@ -150,6 +150,33 @@ impl RunOut {
         }
     }
 
+    /// Fold the results of a nested RunOut (used when an execution has to own its RunOut,
+    /// e.g. inside a shuttle closure) into this one.
+    pub fn merge_from(&mut self, o: RunOut) {
+        self.evals += o.evals;
+        for (k, v) in o.counters {
+            if k.starts_with("max_") {
+                self.gauge_max(&k, v);
+            } else {
+                self.count(&k, v);
+            }
+        }
+        self.nontrivial.extend(o.nontrivial);
+        for v in o.violations {
+            let k = (v.class.clone(), v.key.clone());
+            let c = self.viol_counts.entry(k).or_insert(0);
+            *c += 1;
+            if *c == 1 {
+                self.violations.push(Violation { run: self.run, ..v });
+            }
+        }
+        for s in o.samples {
+            if self.samples.len() < self.max_samples {
+                self.samples.push(s);
+            }
+        }
+    }
+
     pub fn has_violation(&self) -> bool {
         !self.violations.is_empty()
     }
@@ -188,6 +215,10 @@ pub trait Engine: Sync {
     fn extra_coverage(&self, _counters: &BTreeMap<String, u64>) -> Json {
         json!({})
     }
+    /// File stem of the evidence file (default: the property id).
+    fn evidence_name(&self) -> Option<String> {
+        None
+    }
     /// Reach probes that should be non-zero after a run of this tier; missing ones are reported.
     fn expected_probes(&self, _tier: Tier) -> Vec<&'static str> {
         Vec::new()
@@ -214,6 +245,9 @@ pub fn install_panic_hook() {
             .location()
             .map(|l| format!("{}:{}", l.file(), l.line()))
             .unwrap_or_default();
+        if std::env::var_os("VERIF_DEBUG").is_some() {
+            eprintln!("panic: {} @ {}", msg, loc);
+        }
         LAST_PANIC.with(|p| *p.borrow_mut() = Some(format!("{} @ {}", msg, loc)));
     }));
 }
@@ -248,6 +282,9 @@ pub fn panic_key(msg: &str) -> String {
 // heartbeat / watchdog
 
 static HEARTBEAT: AtomicU64 = AtomicU64::new(0);
+/// worker deaths investigated so far in this batch (parent side)
+static DEATHS: AtomicU64 = AtomicU64::new(0);
+const MAX_INVESTIGATED_DEATHS: u64 = 4;
 
 pub fn heartbeat() {
     HEARTBEAT.fetch_add(1, Ordering::Relaxed);
@@ -655,8 +692,15 @@ fn exec_chunk(a: &Args, dir: &Path, chunk: usize, from: u64, to: u64) -> ChunkRe
             merge(&mut acc, read_chunk_result(&path));
             break;
         }
-        // abnormal death: find the run in flight
+        // abnormal death: find the run in flight. Investigation re-runs the chunk up to three
+        // times (each possibly waiting for the hang watchdog), so it is done for the first few
+        // deaths of a batch only; the others are counted and their chunk remainder is skipped.
         crashes += 1;
+        if DEATHS.fetch_add(1, Ordering::SeqCst) >= MAX_INVESTIGATED_DEATHS {
+            *acc.counters.entry("worker_deaths_not_investigated".into()).or_insert(0) += 1;
+            *acc.counters.entry("runs_skipped_after_crash_cap".into()).or_insert(0) += to - from;
+            break;
+        }
         let mut c = self_cmd(a);
         c.arg("--worker")
             .arg("--trace")
@@ -832,6 +876,7 @@ fn minimise<E: Engine>(engine: &E, a: &Args, dir: &Path, v: &Violation) -> (Json
             if budget < 0 || start.elapsed() > Duration::from_secs(90) {
                 break 'outer;
             }
+            let mut canonical: Option<Json> = None;
             let same = if isolated {
                 replay_in_child(a, dir, &cand, "min")
                     .iter()
@@ -839,10 +884,17 @@ fn minimise<E: Engine>(engine: &E, a: &Args, dir: &Path, v: &Violation) -> (Json
             } else {
                 let mut out = RunOut::new(false);
                 let r = guard(|| engine.replay(&cand, &mut out));
-                r.is_ok() && out.violations.iter().any(|x| x.class == v.class && x.key == v.key)
+                // the engine may attach a completed plan to the violation (e.g. the schedule
+                // shuttle persisted for the failing execution): keep that one
+                canonical = out
+                    .violations
+                    .iter()
+                    .find(|x| x.class == v.class && x.key == v.key)
+                    .map(|x| x.plan.clone());
+                r.is_ok() && canonical.is_some()
             };
             if same {
-                plan = cand;
+                plan = canonical.unwrap_or(cand);
                 steps += 1;
                 continue 'outer;
             }
@@ -1105,7 +1157,9 @@ pub fn main_with<E: Engine + 'static>(engine: &'static E) -> ! {
             "violations": unlisted,
             "known_findings_hit": used_known.len(),
         });
-        let path = Path::new(VERIF_DIR).join("evidence").join(format!("{}.json", prop));
+        let path = Path::new(VERIF_DIR)
+            .join("evidence")
+            .join(format!("{}.json", engine.evidence_name().unwrap_or_else(|| prop.clone())));
         let _ = std::fs::create_dir_all(path.parent().unwrap());
         std::fs::write(&path, serde_json::to_string_pretty(&ev).unwrap())
             .unwrap_or_else(|e| harness_error(&format!("write evidence: {}", e)));
